@@ -43,6 +43,10 @@ pub struct DotPlan {
     pub write_plan: IoPlan,
     /// optional syntax tree export: formula, print seed, noise
     pub formula: Option<(F, u64, u8)>,
+    /// `clone-object`: after this many history builds the environment is cloned; the rest of the
+    /// history and the target are built in the copy (the original stays alive)
+    #[serde(default)]
+    pub clone_at: Option<usize>,
 }
 
 const WEIRD_NAMES: [&str; 10] = [
@@ -77,7 +81,7 @@ pub fn gen_plan(rng: &mut Prng) -> DotPlan {
         }
     };
     let nh = rng.range(0, 6);
-    let history = (0..nh).map(|_| func(rng)).collect();
+    let history: Vec<u64> = (0..nh).map(|_| func(rng)).collect();
     let na = rng.range(0, 5);
     let alloc_shift = (0..na).map(|_| rng.range(1, 5000) as u32).collect();
     let formula = if rng.chance(1, 2) {
@@ -97,12 +101,13 @@ pub fn gen_plan(rng: &mut Prng) -> DotPlan {
         named,
         nvars,
         names,
-        history,
+        history: history.clone(),
         alloc_shift,
         target: func(rng),
         route: rng.below(2) as u8,
         write_plan: gen_io_plan(rng, 400, true, true),
         formula,
+        clone_at: if rng.chance(1, 5) { Some(rng.range(0, history.len())) } else { None },
     }
 }
 
@@ -198,15 +203,27 @@ struct World<S: BDDSymbol> {
 
 fn judge_diagram<S: BDDSymbol>(plan: &DotPlan, w: &World<S>, stats: &mut Stats, vs: &mut Vec<Violation>, trace: &mut Vec<u64>) {
     let n = plan.nvars;
-    let env = BDDEnv::<S>::new();
+    let mut env = BDDEnv::<S>::new();
+    let mut originals: Vec<BDDEnv<S>> = Vec::new();
     let mut junk: Vec<Vec<u8>> = Vec::new();
     let mut keep: Vec<Rc<BDD<S>>> = Vec::new();
+    let mut clone_env = |env: &mut BDDEnv<S>, stats: &mut Stats| {
+        let copy = env.clone();
+        originals.push(std::mem::replace(env, copy));
+        bump(stats, "fault.clone-object");
+    };
     for (i, h) in plan.history.iter().enumerate() {
+        if plan.clone_at == Some(i) {
+            clone_env(&mut env, stats);
+        }
         if let Some(s) = plan.alloc_shift.get(i) {
             junk.push(vec![0x5Au8; *s as usize]);
             bump(stats, "fault.alloc-shift");
         }
         keep.push(build(&env, &func_tt(*h, n), &*w.sym, (i % 2) as u8));
+    }
+    if plan.clone_at == Some(plan.history.len()) {
+        clone_env(&mut env, stats);
     }
     let target = func_tt(plan.target, n);
     let d = build(&env, &target, &*w.sym, plan.route);
